@@ -137,6 +137,17 @@ class Preempter:
         a = self._run_a(work_a, work_b, k)
         return a, self.ctl["b_out"], self.ctl["b_ran"]
 
+    def pause(self):
+        """no events (and no cost) until resume()"""
+        if self.ok:
+            for co in self.codes:
+                self.mon.set_local_events(TOOL, co, 0)
+
+    def resume(self):
+        if self.ok:
+            for co in self.codes:
+                self.mon.set_local_events(TOOL, co, self.mon.events.LINE | self.mon.events.PY_START)
+
     def close(self):
         if not self.ok:
             return
